@@ -342,7 +342,7 @@ def gen_specs(rng: random.Random, n, hints=None):
             ne = rng.randint(1, 4)
             exts = []
             for j in range(ne):
-                k = rng.choice(["sparse", "sparse", "cowd", "sesparse", "flat", "flat"] + (hints or {}).get("extra_kinds", []))
+                k = rng.choice(["sparse", "sparse", "cowd", "sesparse", "flat", "flat", "compressed", "compressed"] + (hints or {}).get("extra_kinds", []))
                 if k == "zero":
                     exts.append({"kind": "zero", "capacity": rng.randint(1, 6)})
                 elif k == "flat_off":
